@@ -92,11 +92,23 @@ def alphabet_pending(tier):
     ]
 
 
+def s_scenarios(tier):
+    """Schedule part: the notification paths under overlapping commands of two sessions (scenario
+    definitions shared with C10; here only the C01 stream rules are reported)."""
+    from . import c10
+
+    want = ["reselect,noop|expunge", "re-examine,noop|move", "expunge|noop", "expunge|fetch3", "move1|fetch3",
+            "move1|fetchall slow reader", "expunge|fetchall slow reader", "append|fetchflags"]
+    by = {sc["name"]: sc for sc in c10.scenarios(tier)}
+    return [by[n] for n in want if n in by]
+
+
 def run(tier, seed, jobs) -> Result:
+    from ..explore import sched
     from .hcommon import run_h
 
     plans = [(2, 4), (0, 3)] if tier == "quick" else [(2, 5), (3, 4), (0, 4)]
-    return run_h(
+    res = run_h(
         PROP, RULES,
         [{"cfg_ref": ("vf.props.c01", "cfg", [n]), "alphabet": alphabet(tier), "depth": d, "label": f"INBOX({n})"} for n, d in plans]
         + [{"cfg_ref": ("vf.props.c01", "cfg_pending", []), "alphabet": alphabet_pending(tier), "depth": 4 if tier == "quick" else 6,
@@ -104,16 +116,35 @@ def run(tier, seed, jobs) -> Result:
         ("C01",), jobs, seed,
         [
             "2 sessions (A read-write, B read-write/EXAMINE/IDLE), INBOX with 0 or 2 (thorough: 3) messages, one destination mailbox",
-            "commands strictly sequential (default schedule); interleavings of I/O completions are explored by the S engine (C10)",
+            "H part: commands strictly sequential (default schedule); S part: eight two-session scenarios (shared with C10) under every schedule with "
+            "<=2 (thorough 3) deviations, incl. a peer that reads slowly; only the C01 stream rules are reported from it",
             "external deliveries are whole-message events between commands; the folder mtime advances with each delivery",
             "IDLE entry/exit is not required to notice a delivery no session was told about yet (it does not look at the folder); "
             "after 21 virtual seconds of idling it is",
         ],
         time_budget=80 if tier == "quick" else 1500,
     )
+    per = []
+    for sc in s_scenarios(tier):
+        r = sched.explore(sc, 2 if tier == "quick" else 3, jobs, seed, max_exec=20000 if tier == "quick" else 400000)
+        res.failures.extend(f for f in r["failures"] if f.rule.startswith("C01."))
+        res.coverage["states"] += r["executions"]
+        res.coverage["transitions"] += r["steps"]
+        res.coverage["traces_validated_against_impl"] += r["executions"]
+        per.append({"scenario": sc["name"], "executions": r["executions"], "bound": r["bound_completed"], "outcomes": r["distinct_outcomes"], "cap": r["cap"]})
+        if r["cap"]:
+            res.coverage["exhaustive"] = False
+    res.coverage["schedule_part"] = per
+    return res
 
 
 def replay(rec):
+    rp = rec["replay"]
+    if rp.get("driver") == "s":
+        from ..explore import sched
+
+        _p, _n, _sig, fails, _st = sched.run_one((rp["scenario"], rp["choices"]))
+        return [f for f in fails if f.rule.startswith("C01.")]
     from .hcommon import replay_h
 
     return replay_h("C01.", rec)
